@@ -393,6 +393,22 @@ def rf16f(run):
             continue
         inc1 = [x for x in F.walk(b1) if x['k'] == 'CompoundAssignOperator' and x['op'] == '+=' and F.src(F.strip(x['c'][0])) == 'section_size']
         inc2 = [x for x in F.walk(b2) if x['k'] == 'CompoundAssignOperator' and x['op'] == '+=' and F.src(F.strip(x['c'][0])) == 'addr']
+        # contiguity: inside the passes the running size / address only grows by the size of the item (X += E or X = X + E)
+        moved = False
+        for var, body in (('section_size', b1), ('addr', b2)):
+            for x in F.walk(body):
+                if x['k'] == 'BinaryOperator' and x['op'] == '=' and F.src(F.strip(x['c'][0])) == var:
+                    r = F.strip(x['c'][1])
+                    if r['k'] == 'BinaryOperator' and r['op'] == '+' and F.src(F.strip(r['c'][0])) == var:
+                        continue
+                    moved = True
+                    run.ob(rule, ('contiguous', i, var), False)
+                    run.violation(rule, f, 'placement of kind %d' % i, 'for items with [%s] %s is set to `%s` instead of being advanced by the '
+                                  'size of the item: the item is no longer placed at the sum of the sizes of its predecessors (a gap inside '
+                                  'the section)' % (t1[:60], var, F.src(r)[:80]), line=x['l'])
+        if moved:
+            continue
+        run.ob(rule, ('contiguous', i), True)
         if len(inc1) != 1 or len(inc2) != 1:
             run.ob(rule, ('size', i), False)
             run.analysis_broken(rule, 'branch %d: size increment / address advance not recognised' % i)
